@@ -325,3 +325,223 @@ def uses_of(fn, local):
         elif t["k"] == "yield" and op_base(t["v"]) == local:
             out.append((b, "yield"))
     return out
+
+
+# --------------------------------------------------------------------------- reaching values
+
+def _def_sites(fn, local):
+    """[(bb, idx|'term', rvalue-or-call)] whole-local definitions of `local`"""
+    return fn.defs.get(local, [])
+
+
+def _rd_full(fn, local):
+    """block -> set of def sites of `local` reaching the END of the block (function-wide reaching definitions)"""
+    cache = getattr(fn, "_rd_cache", None)
+    if cache is None:
+        cache = fn._rd_cache = {}
+    if local in cache:
+        return cache[local]
+    gen = {}
+    for (b, i, rv) in _def_sites(fn, local):
+        key = (b, i)
+        cur = gen.get(b)
+        if cur is None or (cur[1] != "term" and (i == "term" or i > cur[1])):
+            gen[b] = key
+    out = {b: set() for b in fn.reachable}
+    if 1 <= local <= fn.arg_count:
+        entry = {("arg", local)}
+    else:
+        entry = set()
+    changed = True
+    order = fn.rpo
+    while changed:
+        changed = False
+        for b in order:
+            if b in gen:
+                new = {gen[b]}
+            else:
+                new = set(entry) if b == 0 else set()
+                for p in fn.pred[b]:
+                    if p in out:
+                        new |= out[p]
+            if new != out[b]:
+                out[b] = new
+                changed = True
+    cache[local] = out
+    return out
+
+
+def value_sources(fn, local, at_bb, at_idx=None, via_edge=None, depth=8, _seen=None):
+    """Possible sources of the value `local` holds just before statement `at_idx` of block `at_bb` (None = at the terminator),
+    optionally considering only executions that pass the edge via_edge=(sb, tb) last before reaching at_bb without re-entering...
+    (precisely: paths tb ->* at_bb inside the region reachable from tb).
+    Returns a set of tuples: ('const', value) ('call', Call) ('arg', n) ('agg', variant, def) ('place', tuple(place)) ('binop', op) ('unknown', x)."""
+    _seen = _seen or set()
+    key = (local, at_bb, at_idx, via_edge)
+    if key in _seen or depth <= 0:
+        return {("unknown", "cycle")}
+    _seen = _seen | {key}
+    sites = _def_sites(fn, local)
+    bydef = {(b, i): rv for (b, i, rv) in sites}
+    # definitions inside at_bb before at_idx
+    inblock = [(i, rv) for (b, i, rv) in sites if b == at_bb and i != "term" and (at_idx is None or (at_idx != "term" and i < at_idx) or at_idx == "term")]
+    if at_idx is None:
+        # at the terminator: a call dest in this very block defines after the terminator, so it does not count
+        pass
+    reaching = set()
+    if inblock:
+        reaching = {(at_bb, max(i for i, rv in inblock))}
+    else:
+        full = _rd_full(fn, local)
+        if via_edge is None:
+            for p in fn.pred[at_bb]:
+                reaching |= full.get(p, set())
+            if at_bb == 0 and 1 <= local <= fn.arg_count:
+                reaching.add(("arg", local))
+        else:
+            sb, tb = via_edge
+            region = fn.reach_from([tb])
+            # reaching definitions restricted to paths that start with the edge sb->tb
+            gen = {}
+            for (b, i, rv) in sites:
+                cur = gen.get(b)
+                if cur is None or (cur[1] != "term" and (i == "term" or i > cur[1])):
+                    gen[b] = (b, i)
+            inn = {b: set() for b in region}
+            out = {b: set() for b in region}
+            start = set(full.get(sb, set()))
+            changed = True
+            while changed:
+                changed = False
+                for b in region:
+                    new_in = set(start) if b == tb else set()
+                    for p in fn.pred[b]:
+                        if p in region and not (b == tb and p == sb):
+                            new_in |= out[p]
+                        elif b == tb and p == sb:
+                            new_in |= start
+                    new_out = {gen[b]} if b in gen else new_in
+                    if new_in != inn[b] or new_out != out[b]:
+                        inn[b], out[b] = new_in, new_out
+                        changed = True
+            reaching = inn.get(at_bb, set()) if at_bb in region else set()
+    res = set()
+    for site in reaching:
+        if site[0] == "arg":
+            res.add(("arg", site[1]))
+            continue
+        b, i = site
+        rv = bydef.get((b, i))
+        if rv is None:
+            res.add(("unknown", str(site)))
+            continue
+        if i == "term":
+            c = fn.call_at(b)
+            res.add(("call", c) if c is not None else ("unknown", "yield"))
+            continue
+        k = rv["k"]
+        if k == "use":
+            a = rv["a"]
+            if "k" in a:
+                kk = a["k"]
+                res.add(("const", kk.get("int") if "int" in kk else kk.get("s")))
+            else:
+                p = op_place(a)
+                if len(p) == 1:
+                    res |= value_sources(fn, p[0], b, i, via_edge if (via_edge and b in fn.reach_from([via_edge[1]])) else None, depth - 1, _seen)
+                else:
+                    res.add(("place", tuple(p)))
+        elif k == "agg":
+            res.add(("agg", rv.get("variant"), rv.get("def"), b))
+        elif k == "cast":
+            p = op_place(rv["a"]) if "k" not in rv["a"] else None
+            if p and len(p) == 1:
+                res |= value_sources(fn, p[0], b, i, None, depth - 1, _seen)
+            else:
+                res.add(("unknown", "cast"))
+        elif k == "unop" and rv["op"] == "Not":
+            p = op_place(rv["a"]) if "k" not in rv["a"] else None
+            inner = value_sources(fn, p[0], b, i, None, depth - 1, _seen) if p and len(p) == 1 else {("unknown", "not")}
+            for s in inner:
+                if s[0] == "const" and s[1] in (0, 1, True, False):
+                    res.add(("const", 0 if s[1] else 1))
+                else:
+                    res.add(("not",) + s)
+        elif k == "binop":
+            res.add(("binop", rv["op"], b))
+        else:
+            res.add(("unknown", k))
+    return res
+
+
+def returned_on_edge(fn, sb, tb):
+    """sources of the function's return value over the executions that take the edge sb->tb: union over the return blocks
+    reachable from tb"""
+    out = set()
+    region = fn.reach_from([tb])
+    for r in fn.returns():
+        if r in region:
+            out |= value_sources(fn, 0, r, None, (sb, tb))
+    return out
+
+
+def option_tests(fn, locals_of_interest=None):
+    """every test of an Option/Result-like two-variant value in fn, whatever its spelling:
+    is_none()/is_some()/is_err()/is_ok() calls and discriminant switches (match / if let / let-else / ?).
+    Returns [dict(root=<local tested (after following refs/as_ref)>, place=<full place tuple>, pos=(sb, tb) edge on which variant 1
+    (Some / Err) holds, neg=(sb, tb) edge for variant 0 (None / Ok), how=str)]"""
+    out = []
+    def root_of(l):
+        # follow refs / as_ref / as_mut / copies back to the tested value
+        tr = fn.trace(l, through_calls=[r"Option::<T>::as_(ref|mut|deref|deref_mut)$", r"Result::<T, E>::as_(ref|mut)$"])
+        place = None
+        for k, info in tr:
+            if k in ("ref", "place"):
+                place = tuple(info)
+        if place:
+            return place[0], place
+        return l, (l,)
+    for c in fn.calls:
+        m = re.search(r"(Option::<T>::(is_none|is_some)|Result::<T, E>::(is_err|is_ok))$", c.path or "")
+        if not m or not c.args or len(c.dest) != 1:
+            continue
+        which = m.group(2) or m.group(3)
+        l = op_base(c.args[0])
+        if l is None:
+            continue
+        r, pl = root_of(l)
+        for (sb, tt, ft) in bool_branch(fn, c.dest[0]):
+            if which in ("is_some", "is_err"):
+                out.append(dict(root=r, place=pl, pos=(sb, tt), neg=(sb, ft), how=which, kind="Option" if "Option" in c.path else "Result"))
+            else:
+                out.append(dict(root=r, place=pl, pos=(sb, ft), neg=(sb, tt), how=which, kind="Option" if "Option" in c.path else "Result"))
+    for b in fn.reachable:
+        for st in fn.stmts(b):
+            if st["k"] == "assign" and st["rv"]["k"] == "discr" and len(st["lhs"]) == 1:
+                p = st["rv"]["p"]
+                tys = fn.local_ty_s(p[0]) if len(p) == 1 else ""
+                d = st["lhs"][0]
+                t = fn.term(b)
+                # the switch on this discriminant (same block or via copies)
+                for bb in fn.reachable:
+                    tt_ = fn.term(bb)
+                    if tt_ and tt_["k"] == "switch" and op_base(tt_["d"]) == d:
+                        tg = dict((v, x) for v, x in tt_["ts"])
+                        oth = tt_["o"]
+                        if len(p) > 1:
+                            kind = "?"          # payload of another enum: its type is not in the dump
+                        elif tys.startswith("core::option::Option<"):
+                            kind = "Option"
+                        elif tys.startswith("core::result::Result<"):
+                            kind = "Result"
+                        else:
+                            continue
+                        v1 = tg.get(1, oth if (1 not in tg and len(tg) == 1) else None)
+                        v0 = tg.get(0, oth if (0 not in tg and len(tg) == 1) else None)
+                        if v1 is None or v0 is None or v1 == v0:
+                            continue
+                        r, pl = (p[0], tuple(p)) if len(p) > 1 else root_of(p[0])
+                        out.append(dict(root=r, place=pl if len(p) == 1 else tuple(p), pos=(bb, v1), neg=(bb, v0), how="match", kind=kind))
+    if locals_of_interest is not None:
+        out = [o for o in out if o["root"] in locals_of_interest or o["place"][0] in locals_of_interest]
+    return out
